@@ -2,7 +2,10 @@
 // SPDX-License-Identifier: Apache-2.0
 
 use std::mem::{size_of, MaybeUninit};
+#[cfg(not(clockbound_verif))]
 use std::sync::atomic;
+#[cfg(clockbound_verif)]
+use crate::verif::atomic;
 
 use crate::{syserror, ShmError};
 
